@@ -1,4 +1,380 @@
-import AY.Spec.Plain
+/-
+  C15 — "Merge laws: deterministic, idempotent, empty-neutral, order- and flag-neutral".
+
+  Statement (properties.jsonl): Building the same sources twice gives equal results; repeating the
+  last document, or adding an empty mapping document anywhere in the sequence, does not change the
+  result; permuting the order of keys inside any mapping changes at most the order of keys in the
+  result. Marking any node of any document !unsafe or !new does not change the merged data either;
+  all of this holds for documents using priority, !del and !merge tags (excluding the explicit
+  remove-this-key idiom).
+
+  Model side: `construct`, `mergeF`/`merge`, `flatten`.  Specification side: `upd`, `foldUpd`.
+  What is proved
+  * determinism (trivial: the model is a function);
+  * empty mapping on the right of ANY mapping-family node and on the left of ANY mapping whose
+    children carry no `!notnew` restriction: exact result, data unchanged (model, all flags);
+    the fold version for tag-free documents (through C02) and for dict-shaped documents with
+    priority / metadata tags (through the C03 induction);
+  * repeat-last: idempotence of `upd` on the specification and of the builder's fold for tag-free
+    documents — PARTIAL: for a repeated document without negative integer keys.  The unrestricted
+    statement is FALSE (also on the real code): negative integer keys can alias a list position
+    (`C15_repeat_last_spec_counterexample`), and — known finding D18 — a list meeting priority tags
+    is not idempotent either (`C15_repeat_last_counterexample`);
+  * key permutation on the specification (`Plain.PermEq` is a congruence for `upd`) — PARTIAL: for
+    newer values without integer keys; with integer keys aliasing one list position (`0` / `-2`)
+    the order of the keys decides which value the position ends up with, also on the real code
+    (`C15_key_permutation_spec_counterexample`);
+  * `!unsafe` / `!new` markers — PARTIAL (`C15_flag_neutral_ops_partial`): `eraseSN` (forget
+    `safe` / `allow_new` everywhere) preserves the data and commutes with every flag combination,
+    the leaf rule and every priority / `delete` test of the merge; the commutation with `mergeF`
+    on whole trees is NOT proved (see the comment at the theorem).
+  Proofs: AY/Lemmas/{C15Empty,C15Spec,C15Perm,C15Flag,C15EmptyDS}.lean.
+-/
+import AY.Lemmas.C15Empty
+import AY.Lemmas.C15Spec
+import AY.Lemmas.C15Perm
+import AY.Lemmas.C15Flag
+import AY.Lemmas.C15EmptyDS
+import AY.Props.C02
+import AY.Props.C03
 namespace AY
-theorem C15_placeholder : foldUpd [] = .error .value := rfl
+
+/-! ### Concrete inputs used by the non-vacuity examples -/
+
+/-- `!force {x: 1, y: !del {}}` / `{x: !weak 2, z: [1], y: !del {}}` as node trees -/
+def c15A : Node :=
+  .comp { prio := some 1 } .dict
+    [(.str "x", .leaf { prio := some 1 } (.scalar (.int 1))),
+     (.str "y", .comp { prio := some 1, del := some true, iDel := some true } .dict [])]
+def c15B : Node :=
+  .comp { prio := some (-1), md := [("m", .int 3)] } .dict
+    [(.str "x", .leaf { prio := some (-1) } (.scalar (.int 2))),
+     (.str "z", .comp { iDel := none } .list [(.int 0, .leaf { iDel := some true } (.scalar (.int 1)))]),
+     (.str "y", .comp { del := some true, iDel := some true } .dict [])]
+/-- flags of an untagged empty mapping document read from another file -/
+def c15E : Flags := { src := some "e.yaml", dSafe := false }
+
+def c15Int (i : Int) : Raw := .scalar .none {} (.lit (.int i))
+def c15Force (i : Int) : Raw := .scalar .plain { prio := some 1 } (.lit (.int i))
+/-- parse and merge a sequence of documents, keep the data -/
+def c15Build (ds : List Raw) : Except Err Plain :=
+  match constructDocs (ds.map (fun d => (({} : Env), d))) with
+  | .error e => .error e
+  | .ok ns => (flatten ns).map native
+
+/-- parse and merge a sequence of documents (each with its own source context) -/
+def c15Flatten (docs : List (Env × Raw)) : Except Err Node :=
+  match constructDocs docs with
+  | .error e => .error e
+  | .ok ns => flatten ns
+
+/-! ### Determinism -/
+
+/- "Building the same sources twice gives equal results": the model (`constructDocs`, `flatten`) is
+   a function of the sources, so this is trivial in Lean; stated for completeness. -/
+theorem C15_deterministic (docs : List (Env × Raw)) (r₁ r₂ : Except Err Node)
+    (h₁ : c15Flatten docs = r₁) (h₂ : c15Flatten docs = r₂) : r₁ = r₂ :=
+  h₁.symm.trans h₂
+
+example : ∃ r, c15Flatten [(({} : Env), c02Doc1), ({}, c02Doc2)] = r := ⟨_, rfl⟩
+
+/-! ### The empty mapping document -/
+
+/- "adding an empty mapping document anywhere in the sequence does not change the result" — on the
+   right: for ANY node `a` of the mapping family (dict, !call, !bind; any flags, any children) and
+   an untagged empty mapping `e` (flags `bareW`: nothing explicit, nothing inherited, no metadata),
+   with any positive fuel the merge succeeds, returns the `self` object, and its result is `a` with
+   the flags of the root combined by the tail of `on_merge_impl` (`finishMerge`):
+   `_replace_self` (priority and `delete` of the root are overwritten by those of `e`, i.e. reset,
+   metadata and safety combined, inherited flags re-propagated into the children) when `e` has
+   priority over `a` or the same priority, `_replace_other` (only safety / metadata) when `a` has
+   the strictly higher priority.  The data, and the data and order of the children, are unchanged. -/
+theorem C15_empty_neutral_right (fuel : Nat) (sf : Flags) (sk : CompKind) (scs : List (Key × Node))
+    (ef : Flags) (hk : sk.isDictFam = true) (he : bareW ef = true) :
+    mergeF (fuel + 1) (.comp sf sk scs) (.comp ef .dict []) =
+      .ok ((if hasPrio ef sf true then propagate (.comp (replaceSelfFlags sf ef) sk scs)
+            else .comp (replaceOtherFlags sf ef) sk scs), true)
+    ∧ (∀ r s, mergeF (fuel + 1) (.comp sf sk scs) (.comp ef .dict []) = .ok (r, s) →
+        native r = native (.comp sf sk scs) ∧ nativeList r.children = nativeList scs ∧
+        (merge (.comp sf sk scs) (.comp ef .dict [])).map native = .ok (native (.comp sf sk scs))) := by
+  have h := mergeF_empty_right fuel sf sk scs ef hk he
+  refine ⟨h, ?_⟩
+  intro r s hr
+  rw [h] at hr
+  injection hr with hr
+  injection hr with hr _
+  subst hr
+  refine ⟨native_emptyRightResult sf sk scs ef, (children_emptyRightResult sf sk scs ef).1, ?_⟩
+  have h0 := mergeF_empty_right 0 sf sk scs ef hk he
+  have hd : (Node.comp ef .dict []).depth + 1 = 0 + 1 + 1 := rfl
+  have h1 := mergeF_empty_right 1 sf sk scs ef hk he
+  simp only [merge, hd, h1, Except.map, native_emptyRightResult]
+
+example : (CompKind.dict).isDictFam = true ∧ bareW c15E = true ∧ hasPrio c15E c15A.flags true = false ∧
+    hasPrio c15E c15B.flags true = true := by decide
+example := C15_empty_neutral_right 0 c15A.flags .dict c15A.children c15E (by decide) (by decide)
+
+/- "adding an empty mapping document anywhere …" — on the left: for an empty mapping `e` (ANY
+   flags) and ANY mapping `b` (any flags) whose keys are pairwise distinct and below whose root no
+   node is `!notnew`-restricted (`allNewList`: effective `allow_new` everywhere; equivalently
+   `reqNewList [] [] bcs = none`), the merge succeeds and the data of the result is the data of
+   `b`: every child of `b` is adopted (re-parented, inherited flags re-propagated, in order) —
+   or, when `b` is deleting and has priority over `e`, `b` itself takes the place of `e`. -/
+theorem C15_empty_neutral_left (fuel : Nat) (ef bf : Flags) (bcs : List (Key × Node))
+    (hnd : keysNodup bcs = true) (hnew : allNewList bcs = true) :
+    mergeF (fuel + 1) (.comp ef .dict []) (.comp bf .dict bcs) =
+      .ok (if eDel (.comp bf .dict bcs) && hasPrio bf ef true then
+             (.comp (replaceOtherFlags bf ef) .dict bcs, false)
+           else if hasPrio bf ef true then
+             (propagate (.comp (replaceSelfFlags ef bf) .dict (adoptList ef bcs)), true)
+           else (.comp (replaceOtherFlags ef bf) .dict (adoptList ef bcs), true))
+    ∧ (∀ r s, mergeF (fuel + 1) (.comp ef .dict []) (.comp bf .dict bcs) = .ok (r, s) →
+        native r = native (.comp bf .dict bcs))
+    ∧ (allNewList bcs = true ↔ reqNewList [] [] bcs = none) := by
+  have h := mergeF_empty_left fuel ef bf bcs hnd hnew
+  refine ⟨h, ?_, fun _ => reqNewList_allNew [] [] bcs hnew, fun h => allNewList_of_reqNewList [] bcs h⟩
+  intro r s hr
+  rw [h] at hr
+  injection hr with hr
+  have := native_emptyLeftResult ef bf bcs
+  rw [hr] at this
+  exact this
+
+example : keysNodup c15B.children = true ∧ allNewList c15B.children = true ∧
+    keysNodup c15A.children = true ∧ allNewList c15A.children = true := by decide
+example := C15_empty_neutral_left 3 c15E c15B.flags c15B.children (by decide) (by decide)
+
+/- Specification side: the empty mapping is a two-sided unit of `upd` on mappings (keys of the
+   newer mapping pairwise distinct). -/
+theorem C15_empty_neutral_spec (as bs : List (Key × Plain)) (h : keysNodup bs = true) :
+    upd (.dict as) (.dict []) = .ok (.dict as) ∧ upd (.dict []) (.dict bs) = .ok (.dict bs) :=
+  ⟨upd_empty_right as, upd_empty_left bs h⟩
+
+example : keysNodup [(Key.str "a", Plain.scalar .null), (Key.int 1, Plain.list [])] = true := by decide
+
+/- "adding an empty mapping document anywhere in the sequence does not change the result" — the
+   builder's fold, PARTIAL: for tag-free mapping documents (through `C02_plain_fold`): parsing and
+   flattening the sequence with `{}` inserted at any position gives the same `Except` value (data,
+   or error) as without it. -/
+theorem C15_empty_anywhere_partial (docs₁ docs₂ : List (Env × Raw)) (env : Env) (hne : docs₁ ++ docs₂ ≠ [])
+    (h₁ : ∀ d, d ∈ docs₁ → rawPlain d.2 = true) (h₂ : ∀ d, d ∈ docs₂ → rawPlain d.2 = true) :
+    ∃ ns ns', constructDocs (docs₁ ++ docs₂) = .ok ns ∧
+      constructDocs (docs₁ ++ (env, .map .none {} []) :: docs₂) = .ok ns' ∧
+      (flatten ns').map native = (flatten ns).map native := by
+  have hall : ∀ d, d ∈ docs₁ ++ docs₂ → rawPlain d.2 = true := by
+    intro d hd
+    rcases List.mem_append.1 hd with h | h
+    · exact h₁ d h
+    · exact h₂ d h
+  have hall' : ∀ d, d ∈ docs₁ ++ (env, Raw.map .none {} []) :: docs₂ → rawPlain d.2 = true := by
+    intro d hd
+    rcases List.mem_append.1 hd with h | h
+    · exact h₁ d h
+    · rcases List.mem_cons.1 h with h | h
+      · subst h; rfl
+      · exact h₂ d h
+  obtain ⟨ns, e1, f1⟩ := C02_plain_fold (docs₁ ++ docs₂) hne hall
+  obtain ⟨ns', e2, f2⟩ := C02_plain_fold (docs₁ ++ (env, Raw.map .none {} []) :: docs₂) (by simp) hall'
+  refine ⟨ns, ns', e1, e2, ?_⟩
+  rw [f1, f2]
+  simp only [List.map_append, List.map_cons, plainOfRaw, plainOfRawMap]
+  apply foldUpd_insert_empty
+  · simpa using hne
+  · intro x hx
+    obtain ⟨d, hd, rfl⟩ := List.mem_map.1 hx
+    exact plainOfRaw_isDict (h₁ d hd)
+  · intro y hy
+    obtain ⟨d, hd, rfl⟩ := List.mem_map.1 hy
+    exact plainOfRaw_isDictNodup (h₂ d hd)
+
+example : [(({} : Env), c02Doc1)] ++ [(({} : Env), c02Doc2)] ≠ [] ∧ rawPlain c02Doc1 = true ∧ rawPlain c02Doc2 = true := by
+  decide
+
+/- "adding an empty mapping document anywhere …" — the builder's fold, PARTIAL: for dict-shaped
+   documents (mappings of mappings with scalar leaves; priority and metadata tags on any node; the
+   domain of C03), pairwise shape-compatible: inserting an untagged empty mapping (any `flagsDS`
+   flags, e.g. another source file) at any position, both sequences flatten successfully and at
+   every path the two results have the very same leaf (value, priority, metadata, all flags). -/
+theorem C15_empty_anywhere_dictshaped_partial (ef : Flags) (xs ys : List Node) (hne : xs ++ ys ≠ [])
+    (hef : flagsDS ef = true)
+    (hst : ∀ st, st ∈ xs ++ ys → dictShaped st = true ∧ st.isDict = true)
+    (hpw : pairwiseCompat (xs ++ .comp ef .dict [] :: ys)) :
+    ∃ r r', flatten (xs ++ ys) = .ok r ∧ flatten (xs ++ .comp ef .dict [] :: ys) = .ok r' ∧
+      ∀ p, leafAt r' p = leafAt r p :=
+  flatten_insert_empty_DS ef xs ys hne hef hst hpw
+
+example : flagsDS c15E = true ∧ [c03D1] ++ [c03D2, c03D3] ≠ [] ∧
+    (∀ st, st ∈ [c03D1] ++ [c03D2, c03D3] → dictShaped st = true ∧ st.isDict = true) ∧
+    pairwiseCompat ([c03D1] ++ .comp c15E .dict [] :: [c03D2, c03D3]) := by
+  refine ⟨by decide, by simp, ?_, pairwiseCompat_of_B _ (by decide)⟩
+  intro st hst
+  simp only [List.cons_append, List.nil_append, List.mem_cons, List.not_mem_nil, or_false] at hst
+  rcases hst with rfl | rfl | rfl <;> decide
+
+/-! ### Repeating the last document -/
+
+/- "repeating the last document … does not change the result" — specification, PARTIAL: for a
+   newer value `b` whose sibling keys are pairwise distinct and whose integer keys are non-negative
+   at every level (`keysOK`), updating by `b` twice is updating once, and updating `b` by itself
+   gives `b`. -/
+theorem C15_repeat_last_spec_partial (a b r : Plain) (hb : b.keysOK = true) (h : upd a b = .ok r) :
+    upd r b = .ok r ∧ upd b b = .ok b :=
+  ⟨upd_idem a b r hb h, upd_self b hb⟩
+
+example : (plainOfRaw c02Doc3).keysOK = true ∧ (upd (plainOfRaw c02Doc1) (plainOfRaw c02Doc1)).toBool = true := by
+  decide
+
+/- The unrestricted statement is FALSE on the specification, hence (C02) on the model and on the
+   real code: in `a: [x, y]` ← `a: {0: {p: 1}, -2: [5]}` both keys address position 0; the first pass
+   leaves `[5]` there, the second pass merges `{p: 1}` onto that list: MergeError. -/
+theorem C15_repeat_last_spec_counterexample :
+    ∃ a b r, upd a b = .ok r ∧ upd r b = .error .merge :=
+  ⟨.dict [(.str "a", .list [.scalar (.str "x"), .scalar (.str "y")])],
+   .dict [(.str "a", .dict [(.int 0, .dict [(.str "p", .scalar (.int 1))]), (.int (-2), .list [.scalar (.int 5)])])],
+   _, rfl, rfl⟩
+
+/- The builder's fold, PARTIAL: for tag-free mapping documents the last of which has no negative
+   integer key, repeating the last document gives the same `Except` value. -/
+theorem C15_repeat_last_plain (docs : List (Env × Raw)) (d : Env × Raw)
+    (h : ∀ x, x ∈ docs → rawPlain x.2 = true) (hd : rawPlain d.2 = true)
+    (hk : (plainOfRaw d.2).keysOK = true) :
+    ∃ ns ns', constructDocs (docs ++ [d]) = .ok ns ∧ constructDocs (docs ++ [d, d]) = .ok ns' ∧
+      (flatten ns').map native = (flatten ns).map native := by
+  have hall : ∀ x, x ∈ docs ++ [d] → rawPlain x.2 = true := by
+    intro x hx
+    rcases List.mem_append.1 hx with h' | h'
+    · exact h x h'
+    · simp at h'; subst h'; exact hd
+  have hall' : ∀ x, x ∈ docs ++ [d, d] → rawPlain x.2 = true := by
+    intro x hx
+    rcases List.mem_append.1 hx with h' | h'
+    · exact h x h'
+    · simp at h'; subst h'; exact hd
+  obtain ⟨ns, e1, f1⟩ := C02_plain_fold (docs ++ [d]) (by simp) hall
+  obtain ⟨ns', e2, f2⟩ := C02_plain_fold (docs ++ [d, d]) (by simp) hall'
+  refine ⟨ns, ns', e1, e2, ?_⟩
+  rw [f1, f2]
+  simp only [List.map_append, List.map_cons, List.map_nil]
+  exact foldUpd_repeat_last _ _ hk
+
+example : rawPlain c02Doc1 = true ∧ rawPlain c02Doc3 = true ∧ (plainOfRaw c02Doc3).keysOK = true := by decide
+
+/- For tagged documents repeating the last document is NOT idempotent (known finding D18, a list
+   meeting priority tags): `a: [1, !force 2]` ← `a: [!force 8, 9]` gives `a: [8]`, with the last
+   document repeated `a: [8, 9]` (the pre-filter of `ConfigList.on_merge_impl` drops the outranked
+   `9` before the index-wise merge; the second time nothing outranks it). -/
+theorem C15_repeat_last_counterexample :
+    (match c15Build [.map .none {} [(.str "a", .seq .none {} [c15Int 1, c15Force 2])],
+                     .map .none {} [(.str "a", .seq .none {} [c15Force 8, c15Int 9])]] with
+      | .ok (.dict [(.str "a", .list [.scalar (.int 8)])]) => true
+      | _ => false) = true
+    ∧ (match c15Build [.map .none {} [(.str "a", .seq .none {} [c15Int 1, c15Force 2])],
+                       .map .none {} [(.str "a", .seq .none {} [c15Force 8, c15Int 9])],
+                       .map .none {} [(.str "a", .seq .none {} [c15Force 8, c15Int 9])]] with
+      | .ok (.dict [(.str "a", .list [.scalar (.int 8), .scalar (.int 9)])]) => true
+      | _ => false) = true := by
+  constructor <;> decide
+
+
+/-! ### Permuting the keys of mappings -/
+
+/-- `{b: {y: 2, x: [1, {p: 1, q: 2}]}, a: 1}` and the same with every mapping permuted -/
+def c15P1 : Plain := .dict [(.str "b", .dict [(.str "y", .scalar (.int 2)),
+    (.str "x", .list [.scalar (.int 1), .dict [(.str "p", .scalar (.int 1)), (.str "q", .scalar (.int 2))]])]),
+  (.str "a", .scalar (.int 1))]
+def c15P1' : Plain := .dict [(.str "a", .scalar (.int 1)), (.str "b", .dict [
+    (.str "x", .list [.scalar (.int 1), .dict [(.str "q", .scalar (.int 2)), (.str "p", .scalar (.int 1))]]),
+    (.str "y", .scalar (.int 2))])]
+
+/- "permuting the order of keys inside any mapping changes at most the order of keys in the
+   result" — specification, PARTIAL: `Plain.PermEq` (equal up to the order of keys inside every
+   mapping; list elements in order; no repeated keys) is a congruence for `upd` when the newer
+   value has no integer keys at any level (`noIntKeysH`): if `a ~ a'`, `b ~ b'` and `upd a b`
+   succeeds with `r`, then `upd a' b'` succeeds with some `r' ~ r`; `~` is symmetric, so with the
+   hypothesis on both newer values the two updates also fail together.  The same holds for `updF`
+   with any common fuel. -/
+theorem C15_key_permutation_spec_partial (a a' b b' : Plain) (ha : a.PermEq a') (hb : b.PermEq b')
+    (hq : b.noIntKeysH = true) :
+    (∀ r, upd a b = .ok r → ∃ r', upd a' b' = .ok r' ∧ r.PermEq r') ∧
+    (∀ m r, updF m a b = .ok r → ∃ r', updF m a' b' = .ok r' ∧ r.PermEq r') ∧
+    (b'.noIntKeysH = true → ((upd a b).toBool = (upd a' b').toBool)) := by
+  refine ⟨fun r h => upd_perm ha hb hq h, ?_, ?_⟩
+  · intro m r h
+    obtain ⟨n1, ha1⟩ := ha
+    obtain ⟨n2, hb2⟩ := hb
+    obtain ⟨r', h1, h2⟩ := updF_perm m (max n1 n2) a a' b b' r
+      (permEqF_mono (Nat.le_max_left _ _) ha1) (permEqF_mono (Nat.le_max_right _ _) hb2) hq h
+    exact ⟨r', h1, _, h2⟩
+  · intro hq'
+    cases h : upd a b with
+    | ok r =>
+      obtain ⟨r', h', _⟩ := upd_perm ha hb hq h
+      simp [h', Except.toBool]
+    | error e =>
+      cases h' : upd a' b' with
+      | error e' => simp [Except.toBool]
+      | ok r' =>
+        obtain ⟨r, hr, _⟩ := upd_perm (PermEq_symm ha) (PermEq_symm hb) hq' h'
+        rw [h] at hr; cases hr
+
+example : c15P1.PermEq c15P1' ∧ c15P1.noIntKeysH = true ∧ c15P1'.noIntKeysH = true :=
+  ⟨PermEq_of_B 6 (by decide), by decide, by decide⟩
+
+/- The unrestricted statement is FALSE on the specification, hence (C02) on the model and on the
+   real code: with integer keys aliasing one list position (`0` and `-2` on a list of length 2)
+   the later key wins, so the order of the keys decides the value: `a: [x, y]` ← `a: {0: 1, -2: 2}`
+   gives `a: [2, y]`, the permuted `a: {-2: 2, 0: 1}` gives `a: [1, y]`. -/
+theorem C15_key_permutation_spec_counterexample :
+    ∃ a b b' : Plain, b.PermEq b' ∧
+      upd a b = .ok (.dict [(.str "a", .list [.scalar (.int 2), .scalar (.str "y")])]) ∧
+      upd a b' = .ok (.dict [(.str "a", .list [.scalar (.int 1), .scalar (.str "y")])]) :=
+  ⟨.dict [(.str "a", .list [.scalar (.str "x"), .scalar (.str "y")])],
+   .dict [(.str "a", .dict [(.int 0, .scalar (.int 1)), (.int (-2), .scalar (.int 2))])],
+   .dict [(.str "a", .dict [(.int (-2), .scalar (.int 2)), (.int 0, .scalar (.int 1))])],
+   PermEq_of_B 3 (by decide), rfl, rfl⟩
+
+/-! ### `!unsafe` / `!new` markers -/
+
+/- "Marking any node of any document !unsafe or !new does not change the merged data" — PARTIAL:
+   the building blocks.  `eraseSN` forgets `safe`, `allow_new` and everything inherited from them
+   on every node.  It never changes the data; priorities, `delete`, truthiness and the class of a
+   node do not depend on the erased flags; it commutes with both flag combinations of the merge
+   (`_replace_self`, `_replace_other`), with the leaf rule (same winner), with the lookup of the
+   deepest existing node, and therefore leaves both pruning conditions (`maybe_keep`,
+   `keep_if_exists`) and the inherited `delete` handed to children unchanged; on erased trees
+   `_require_all_new` never fires (the only place `allow_new` is consulted) and `safe` is only
+   combined in `mergeSafe`.  NOT proved: the commutation `mergeF (eraseSN a) (eraseSN b) ~
+   eraseSN (mergeF a b)` for whole trees.  Obstacle: `_propagate_implicit_values` decides whether
+   to descend (`flagsChanged`) by comparing `implicit_allow_new` / `implicit_safe` too, and when it
+   descends it also rewrites `implicit_delete` (data relevant) below; commutation therefore needs
+   the invariant "every child already carries what its parent hands down", preserved by all
+   operations of the merge, which is not established here (the correspondence harness tests the
+   end-to-end statement on the real code). -/
+theorem C15_flag_neutral_ops_partial (a b : Node) (s o : Flags) (p : Path) :
+    native (eraseSN a) = native a ∧
+    (ePrio (eraseF s) = ePrio s ∧ ∀ e, hasPrio (eraseF s) (eraseF o) e = hasPrio s o e) ∧
+    (eDel (eraseSN a) = eDel a ∧ (eraseSN a).truthy = a.truthy ∧ (eraseSN a).isComp = a.isComp) ∧
+    eraseF (replaceSelfFlags s o) = replaceSelfFlags (eraseF s) (eraseF o) ∧
+    eraseF (replaceOtherFlags s o) = replaceOtherFlags (eraseF s) (eraseF o) ∧
+    leafRule (eraseSN a) (eraseSN b) = (eraseSN (leafRule a b).1, (leafRule a b).2) ∧
+    firstNotMissing (eraseSN a) p = eraseSN (firstNotMissing a p) ∧
+    maybeKeep (eraseSN a) p (eraseSN b) = maybeKeep a p b ∧
+    keepIfExists (eraseSN a) p (eraseSN b) = keepIfExists a p b ∧
+    (∀ k, (childKw (eraseF s) k).map (·.iDel) = (childKw s k).map (·.iDel)) ∧
+    (∀ exc q, reqNew exc q (eraseSN a) = none) := by
+  refine ⟨native_eraseSN a, ⟨rfl, fun _ => rfl⟩, ⟨eDel_eraseSN a, truthy_eraseSN a, isComp_eraseSN a⟩,
+    eraseF_replaceSelfFlags s o, eraseF_replaceOtherFlags s o, leafRule_eraseSN a b,
+    firstNotMissing_eraseSN p a, maybeKeep_eraseSN a p b, keepIfExists_eraseSN a p b, ?_,
+    fun exc q => reqNew_allNew exc q _ (allNew_eraseSN a)⟩
+  intro k
+  rw [childKw_eraseF]
+  cases childKw s k <;> rfl
+
+/-- `!unsafe {x: !new 1}` as a node tree -/
+def c15F : Node :=
+  .comp { safe := some false, dSafe := false } .dict
+    [(.str "x", .leaf { new := some true, iSafe := some false, prio := some 1 } (.scalar (.int 1)))]
+example : (eraseSN c15F).flags.safe = none ∧ eSafe c15F.flags = false ∧ eSafe (eraseSN c15F).flags = true := by
+  decide
+
 end AY
